@@ -51,11 +51,16 @@ pub fn eval_node<F: FnMut(&GraphColoredVertices, &str)>(
     // only include the FREE canonical variables that are actually contained in the sub-formula
     // example: given "!{x}:!{y}: (AX {y})", its sub-formula "AX {x}" would have one "None" domain for "var0"
     let mut canonical_domains: VarDomainMap = VarDomainMap::new();
+    // is some variable that does not occur in this sub-formula restricted in the current scope?
+    let mut foreign_restriction = false;
     for (variable, domain) in &eval_context.free_var_domains {
         if renaming.contains_key(variable) {
             canonical_domains.insert(renaming.get(variable).unwrap().clone(), domain.clone());
+        } else if domain.is_some() {
+            foreign_restriction = true;
         }
     }
+    let is_wild_card = matches!(node.node_type, NodeType::Terminal(Atomic::WildCardProp(_)));
     // canonical version of the current formula and canonized mappings of its domains
     let canonized_formula_with_domains = (canonized_form.clone(), canonical_domains.clone());
 
@@ -67,11 +72,13 @@ pub fn eval_node<F: FnMut(&GraphColoredVertices, &str)>(
             .cache
             .contains_key(&canonized_formula_with_domains)
         {
-            // decrement number of duplicates left
-            *eval_context
-                .duplicates
-                .get_mut(&canonized_formula_with_domains)
-                .unwrap() -= 1;
+            // decrement number of duplicates left (wild-card sets are never evicted)
+            if !is_wild_card {
+                *eval_context
+                    .duplicates
+                    .get_mut(&canonized_formula_with_domains)
+                    .unwrap() -= 1;
+            }
 
             // get cached result, but it might be using differently named state-variables
             // so we might have to rename them later
@@ -101,7 +108,8 @@ pub fn eval_node<F: FnMut(&GraphColoredVertices, &str)>(
             return result;
         } else {
             // if the cache does not contain result for this subformula, set insert flag
-            save_to_cache = true;
+            // (a result computed under a restriction of a foreign variable is not reusable)
+            save_to_cache = !foreign_restriction;
         }
     }
 
